@@ -62,7 +62,7 @@ def trem(a, b):
     return a - b * tdiv(a, b)
 
 
-TOKEN = re.compile(r"\s*(?:(\d[\d_]*(?:[iu](?:8|16|32|64|128|size))?)|([A-Za-z_][A-Za-z0-9_]*(?:::[A-Za-z_][A-Za-z0-9_]*)*(?:\.[a-z_][a-z0-9_]*)*)|(<<|>>|[-+*/%()&|^!~]))")
+TOKEN = re.compile(r"\s*(?:(0[box][0-9a-fA-F_]+(?:[iu](?:8|16|32|64|128|size))?|\d[\d_]*(?:[iu](?:8|16|32|64|128|size))?)|([A-Za-z_][A-Za-z0-9_]*(?:::[A-Za-z_][A-Za-z0-9_]*)*(?:\.[a-z_][a-z0-9_]*)*)|(<<|>>|[-+*/%()&|^!~]))")
 
 
 def tokenize(expr):
@@ -75,7 +75,7 @@ def tokenize(expr):
             raise TranslateError('cannot tokenize constant expression: %r at %d' % (expr, i))
         if m.group(1):
             t = re.sub(r'[iu](8|16|32|64|128|size)$', '', m.group(1)).replace('_', '')
-            toks.append(('n', int(t)))
+            toks.append(('n', int(t, 0) if t[:2] in ('0b', '0o', '0x') else int(t)))
         elif m.group(2):
             toks.append(('id', m.group(2)))
         else:
@@ -203,7 +203,7 @@ class Evaluator:
         raise TranslateError('unexpected token %r' % (t,))
 
 
-CONST_RE = re.compile(r'\b(?:pub(?:\([a-z:]+\))?\s+)?(?:const|static)\s+([A-Z_][A-Z0-9_]*)\s*:\s*([^=;]+?)\s*=\s*', re.S)
+CONST_RE = re.compile(r'\b(?:pub(?:\([a-z:]+\))?\s+)?(?:const|static)\s+([A-Z_][A-Z0-9_]*)\s*:\s*((?:[^=;\[]|\[[^\]]*\])+?)\s*=\s*', re.S)
 
 
 def find_items(src):
